@@ -626,5 +626,20 @@ func c03Once(c caseC03, o *gen.Obs) error {
 	if got := secp256k1.Base().Equal(e); (got == 1) != want.Equal(ref.G()) {
 		return gen.Fail(site+"/value-behaviour", "after decoding %x, Equal(G, receiver) = %d", data, got)
 	}
+	// the input buffer belongs to the caller, who re-uses it (a receive buffer, zeroisation): the decoded object keeps its value
+	if c.Decoder != "hex" && c.Decoder != "text" && c.Decoder != "json" && len(data) <= 1<<16 {
+		for i := range data {
+			data[i] ^= 0xA5
+		}
+		if got := e.Encode(); !bytes.Equal(got, ref.Compress(want)) {
+			return gen.Fail(site+"/keeps-input-slice", "after the caller overwrote the buffer it had passed to %s, the decoded object encodes to %x instead of %x", c.Decoder, got, ref.Compress(want))
+		}
+		if got, werr := e.MarshalBinary(); werr != nil || !bytes.Equal(got, ref.Compress(want)) {
+			return gen.Fail(site+"/keeps-input-slice", "after the caller overwrote the buffer it had passed to %s, the decoded object marshals to %x instead of %x", c.Decoder, got, ref.Compress(want))
+		}
+		if got := e.Copy().Encode(); !bytes.Equal(got, ref.Compress(want)) {
+			return gen.Fail(site+"/keeps-input-slice", "after the caller overwrote the buffer it had passed to %s, a copy of the decoded object encodes to %x instead of %x", c.Decoder, got, ref.Compress(want))
+		}
+	}
 	return nil
 }
